@@ -398,3 +398,214 @@ fn native_enum_store_overlay_rollback() {
     }
     assert!(runs == 6);
 }
+
+// ---- (not a registered check) crash points of a commit: an exploration tool ------------------------
+// C03 stays `not_applicable` for this technique: enumerating crash points is fault enumeration, a
+// different family, and its run-to-run variation (I/O worker batching) is not something a check that
+// must never raise a false alarm should rest on.  The harness is kept because it costs nothing, it
+// passed on the repaired tree every time it was run (about 100 crash points per run, second crashes
+// during recovery included), and it is a convenient way to demonstrate a crash-atomicity defect on
+// the real code should a contract ever point at one.  `./check` does not run it.
+// Bounded native enumeration of crash points.  The commit runs in a CHILD process (this test binary
+// re-executed with `--exact native_crash_child`), whose interposed libc entry points
+// (bitbox::verif_kani::native_io) make it `_exit(77)` right before its k-th mutating system call
+// (pwrite64, write, ftruncate64, unlink); page writes submitted through io_uring are not counted
+// individually - at the exit they are in whatever state the kernel left them, which is exactly what
+// a process crash means.  The parent then opens the directory in-process and judges the result.
+#[cfg(test)]
+fn native_crash_script() -> (Vec<Vec<(nomt_core::trie::KeyPath, Option<Vec<u8>>)>>, Vec<(nomt_core::trie::KeyPath, Option<Vec<u8>>)>) {
+    use native_store::*;
+    let val = |tag: u8, len: usize| Some(vec![tag; len]);
+    // setup: two commits; the crashing commit: inserts (a new page), overwrites, a multi-page value,
+    // deletes that empty a page
+    let setup = vec![
+        (0..6).map(|i| (key_b(i), val(0x10 + i, 8))).chain((0..24).map(|i| (key_a(i), val(0x20 + i, 33)))).collect::<Vec<_>>(),
+        vec![(key_c(0), val(0x71, 3000)), (key_c(1), val(0x72, 1))],
+    ];
+    let last: Vec<_> = (4..24).map(|i| (key_a(i), None))
+        .chain(vec![(key_b(1), val(0x99, 5)), (key_b(3), None), (key_c(0), val(0x75, 5000)), (key_c(1), None), ([0x5Au8; 32], val(0x5A, 2))])
+        .collect();
+    (setup, last)
+}
+
+#[cfg(test)]
+fn native_crash_open(dir: &std::path::Path, rollback: bool) -> crate::Nomt<crate::hasher::Blake3Hasher> {
+    let mut o = crate::Options::new();
+    o.path(dir.join("db"));
+    o.commit_concurrency(1);
+    o.io_workers(1);
+    o.hashtable_buckets(512);
+    o.bitbox_seed([3; 16]);
+    o.rollback(rollback);
+    crate::Nomt::<crate::hasher::Blake3Hasher>::open(o).unwrap()
+}
+
+#[cfg(test)]
+fn native_crash_commit(nomt: &crate::Nomt<crate::hasher::Blake3Hasher>, batch: &[(nomt_core::trie::KeyPath, Option<Vec<u8>>)]) {
+    use crate::{KeyReadWrite, SessionParams};
+    let s = nomt.begin_session(SessionParams::default());
+    let mut actuals: Vec<_> = batch.iter().map(|(k, v)| { s.warm_up(*k); (*k, KeyReadWrite::Write(v.clone())) }).collect();
+    actuals.sort_by_key(|(k, _)| *k);
+    s.finish(actuals).unwrap().commit(nomt).unwrap();
+}
+
+/// child side: does nothing unless the parent asked for it through the environment
+#[cfg(test)]
+#[test]
+fn native_crash_child() {
+    use crate::bitbox::verif_kani::native_io;
+    use std::sync::atomic::Ordering;
+    let Ok(dir) = std::env::var("VERIF_CRASH_DIR") else { return };
+    let crash_at: i64 = std::env::var("VERIF_CRASH_AT").unwrap().parse().unwrap();
+    let mode = std::env::var("VERIF_CRASH_MODE").unwrap();
+    let rollback = std::env::var("VERIF_CRASH_ROLLBACK").is_ok();
+    let dir = std::path::PathBuf::from(dir);
+    native_io::CRASH_AT.store(crash_at, Ordering::SeqCst);
+    if mode == "open" {
+        // crash while a previous crash is being recovered
+        native_io::ARMED.store(true, Ordering::SeqCst);
+        let nomt = native_crash_open(&dir, rollback);
+        native_io::ARMED.store(false, Ordering::SeqCst);
+        drop(nomt);
+    } else {
+        let nomt = native_crash_open(&dir, rollback);
+        let (_, last) = native_crash_script();
+        native_io::ARMED.store(true, Ordering::SeqCst);
+        native_crash_commit(&nomt, &last);
+        native_io::ARMED.store(false, Ordering::SeqCst);
+        drop(nomt);
+    }
+    std::fs::write(dir.join("mutations"), native_io::MUTATIONS.load(Ordering::SeqCst).to_string()).unwrap();
+}
+
+#[cfg(test)]
+fn native_crash_run_child(dir: &std::path::Path, mode: &str, crash_at: i64, rollback: bool) -> Option<i32> {
+    let mut c = std::process::Command::new(std::env::current_exe().unwrap());
+    c.args(["--exact", "merkle::page_walker::verif_kani::native_crash_child", "--test-threads", "1"])
+        .env("VERIF_CRASH_DIR", dir)
+        .env("VERIF_CRASH_AT", crash_at.to_string())
+        .env("VERIF_CRASH_MODE", mode)
+        .env("RUST_BACKTRACE", "0")
+        .stdout(std::process::Stdio::null())
+        .stderr(std::process::Stdio::null());
+    if rollback { c.env("VERIF_CRASH_ROLLBACK", "1"); }
+    c.status().unwrap().code()
+}
+
+#[cfg(test)]
+fn native_copy_dir(from: &std::path::Path, to: &std::path::Path) {
+    std::fs::create_dir_all(to).unwrap();
+    for e in std::fs::read_dir(from).unwrap() {
+        let e = e.unwrap();
+        if e.file_type().unwrap().is_dir() {
+            native_copy_dir(&e.path(), &to.join(e.file_name()));
+        } else {
+            std::fs::copy(e.path(), to.join(e.file_name())).unwrap();
+        }
+    }
+}
+
+/// Bounded native enumeration (not a proof): a store holding 32 structured keys (a persisted child
+/// page, a multi-page value), then a commit of 25 changes (deletes that empty the page, overwrites,
+/// a larger multi-page value, an insert) that dies right before its k-th mutating system call, for
+/// EVERY k up to the number of such calls the commit makes, with and without the rollback log; and,
+/// for every crash point after which the reopen has something to recover, a second crash at every
+/// mutating system call of that recovering open.  After each:
+///  * [C03] the directory opens; root, every value, every proof are those of exactly the state before
+///    the commit or exactly the state after it (never a mixture), and it is the new state when the
+///    commit had returned;
+///  * the reopened store accepts a further commit whose root is the specified trie's.
+#[cfg(test)]
+#[test]
+fn native_enum_crash_points_commit_atomic() {
+    let _serial = crate::bitbox::verif_kani::native_io::SERIAL.lock().unwrap_or_else(|e| e.into_inner());
+    use crate::hasher::{Blake3Hasher, ValueHasher};
+    use bitvec::prelude::*;
+    use native_store::*;
+    use nomt_core::trie::{KeyPath, LeafData};
+    use std::collections::BTreeMap;
+    let (setup, last) = native_crash_script();
+    let apply = |m: &mut BTreeMap<KeyPath, Vec<u8>>, b: &[(KeyPath, Option<Vec<u8>>)]| {
+        for (k, v) in b { match v { Some(v) => { m.insert(*k, v.clone()); } None => { m.remove(k); } } }
+    };
+    let mut total_points = 0;
+    for rollback in [false, true] {
+        let (mut saw_old, mut saw_new) = (0, 0);
+        let base = tempfile::tempdir().unwrap();
+        let mut old = BTreeMap::new();
+        {
+            let nomt = native_crash_open(base.path(), rollback);
+            for b in &setup { native_crash_commit(&nomt, b); apply(&mut old, b); }
+        }
+        let mut new = old.clone();
+        apply(&mut new, &last);
+        let (old_root, new_root) = (ref_root(&old), ref_root(&new));
+        let universe: Vec<KeyPath> = old.keys().chain(new.keys()).cloned().collect::<std::collections::BTreeSet<_>>().into_iter().collect();
+        let judge = |dir: &std::path::Path, what: &str, must_be_new: bool| -> bool {
+            let nomt = native_crash_open(dir, rollback);
+            let root = nomt.root().into_inner();
+            assert!(root == old_root || root == new_root, "after {} the store shows a root that is neither the old nor the new state's", what);
+            let is_new = root == new_root;
+            assert!(is_new || !must_be_new, "after {} the commit had returned but the reopened store shows the old state", what);
+            let model = if is_new { &new } else { &old };
+            let s = nomt.begin_session(crate::SessionParams::default());
+            for k in &universe {
+                assert!(nomt.read(*k).unwrap().as_ref() == model.get(k), "after {} a key reads a value of the other state (root says {})", what, if is_new { "new" } else { "old" });
+                let proof = s.prove(*k).unwrap();
+                let v = proof.verify::<Blake3Hasher>(k.view_bits::<Msb0>(), root).unwrap_or_else(|e| panic!("after {} a path proof does not verify: {:?}", what, e));
+                match model.get(k) {
+                    Some(val) => assert!(v.confirm_value(&LeafData { key_path: *k, value_hash: Blake3Hasher::hash_value(val) }).unwrap(), "after {} a proof does not confirm the value", what),
+                    None => assert!(v.confirm_nonexistence(k).unwrap(), "after {} a proof does not confirm an absence", what),
+                }
+            }
+            drop(s);
+            // the store is usable: one more commit
+            let mut m = model.clone();
+            let extra = vec![(key_b(5), Some(vec![0xEE; 4])), (key_a(0), None)];
+            native_crash_commit(&nomt, &extra);
+            apply(&mut m, &extra);
+            assert!(nomt.root().into_inner() == ref_root(&m), "after {} a further commit gives a wrong root", what);
+            is_new
+        };
+        // dry run: how many mutating system calls does the commit make?
+        let dry = tempfile::tempdir().unwrap();
+        native_copy_dir(base.path(), dry.path());
+        assert!(native_crash_run_child(dry.path(), "commit", -1, rollback) == Some(0), "the child could not run the commit");
+        let n: i64 = std::fs::read_to_string(dry.path().join("mutations")).unwrap().parse().unwrap();
+        assert!(n >= 4, "only {} mutating system calls seen: the interposition is not in effect", n);
+        assert!(judge(dry.path(), "a complete commit", true));
+        // (page writes are submitted by I/O worker threads, so the number of mutating calls varies a
+        // little from run to run: go on until a child gets through the whole commit)
+        for k in 1..=(n + 50) {
+            let d = tempfile::tempdir().unwrap();
+            native_copy_dir(base.path(), d.path());
+            let code = native_crash_run_child(d.path(), "commit", k, rollback);
+            if code == Some(0) {
+                assert!(k > n / 2, "a child completed the commit with crash point {} of about {}", k, n);
+                assert!(judge(d.path(), "a complete commit", true));
+                break;
+            }
+            assert!(code == Some(77), "the child neither completed nor died at mutating system call {} of about {} (exit {:?})", k, n, code);
+            // a second crash during the recovering open, at every mutating call it makes
+            let probe = tempfile::tempdir().unwrap();
+            native_copy_dir(d.path(), probe.path());
+            assert!(native_crash_run_child(probe.path(), "open", -1, rollback) == Some(0), "the reopen after a crash at call {} failed in the child", k);
+            let m: i64 = std::fs::read_to_string(probe.path().join("mutations")).unwrap().parse().unwrap();
+            for j in 1..=m {
+                let d2 = tempfile::tempdir().unwrap();
+                native_copy_dir(d.path(), d2.path());
+                let code = native_crash_run_child(d2.path(), "open", j, rollback);
+                assert!(code == Some(77) || code == Some(0), "the recovering child ended with {:?}", code);
+                judge(d2.path(), &format!("a crash before mutating call {} of {} of the commit (rollback log {}) and a second crash before call {} of {} of the recovering open", k, n, rollback, j, m), false);
+                total_points += 1;
+            }
+            let is_new = judge(d.path(), &format!("a crash before mutating call {} of {} of the commit (rollback log {})", k, n, rollback), false);
+            if is_new { saw_new += 1 } else { saw_old += 1 }
+            total_points += 1;
+        }
+        eprintln!("crash points (rollback log {}): {} in the commit, old state after {}, new state after {}", rollback, n, saw_old, saw_new);
+        assert!(saw_old >= 1, "no crash point left the old state: {} old, {} new", saw_old, saw_new);
+    }
+    eprintln!("crash points judged in total (including second crashes during recovery): {}", total_points);
+    assert!(total_points >= 20);
+}
